@@ -36,11 +36,13 @@ CLAIMED = {
             'in-image, positive-weight, unmasked pixels (NaN iff the box '
             'misses the image), many positions equal one at a time, and the '
             'aperture_photometry table equals do_photometry for every call '
-            'form (bare, NDData, units, aperture lists). Bounded claim.',
+            'form (bare, NDData, units, aperture lists); sky apertures of '
+            'the four classes x methods give exactly the numbers of their '
+            'own to_pixel(wcs) image. Bounded claim.',
             'floats as NaN-extended reals; compiled mask weights taken as '
             'given in the real-mask flavour (C01 covers them); table/call-'
             'form part runs on concrete data with solver-enumerated call '
-            'forms; sky apertures not covered',
+            'forms; the WCS transformation itself (wcslib) is not analysed',
             TECH),
     'C17': ('3/C17',
             'centroid_com: for all NaN-extended symbolic data and masks up '
